@@ -537,9 +537,12 @@ func (r *Replica) handleStreamingState() error {
 		fmt.Printf("STREAM STATE: Received batch with %d entries\n", entryCount)
 
 		if entryCount == 0 {
-			// No entries received, wait for more
-			fmt.Printf("Received empty batch, waiting for more data\n")
-			return r.stateTracker.SetState(StateWaitingForData)
+			// An empty batch is a heartbeat. Stay in the streaming state and read
+			// the next message on the next tick: going to WAITING_FOR_DATA here
+			// limits the replica to about one message per second, so heartbeats
+			// sent more often than that pile up in the stream in front of the data
+			fmt.Printf("Received empty batch (heartbeat), reading on\n")
+			return nil
 		}
 
 		// Important fix: We have received entries and need to process them
@@ -733,6 +736,10 @@ func (r *Replica) handleWaitingForDataState() error {
 			// We got some data!
 			if err != nil {
 				fmt.Printf("Error checking for entries in WAITING_FOR_DATA: %v\n", err)
+			} else if response != nil && len(response.Entries) == 0 {
+				// A heartbeat: more messages may be queued behind it, read them
+				// at the streaming state's pace instead of one per second
+				return r.stateTracker.SetState(StateStreamingEntries)
 			} else if response != nil && len(response.Entries) > 0 {
 				fmt.Printf("Found %d entries in WAITING_FOR_DATA state - processing immediately\n",
 					len(response.Entries))
